@@ -37,6 +37,10 @@ Inductive case19 :=
            (unres_g : list string) (ok_g : bool) (canon_g : string)
            (unres_d : list string) (ok_d : bool) (canon_d : string)
            (stdout : string) (exit : Z) (obs : option (list string * string))
+(* cdi resolve f1 f2 ... (no cache errors) against the runs of cdi resolve on each file alone (stdout, exit status) *)
+| CResolveMany (singles : list (string * Z)) (stdout : string) (exit : Z)
+(* cdi monitor <aspects> (no cache errors): what it had printed when the harness stopped it after its first refresh *)
+| CMonitor (args : list string) (v : lib_view) (stdout : string)
 (* the schema named with --schema cannot be loaded (schema.Load fails in the library) *)
 | CSchemaFail (exit : Z)
 (* cmd/validate: schema argument, schema.Load succeeded, documents (printed name, library validation ok) *)
@@ -144,6 +148,9 @@ Definition corr19 (c : case19) : bool :=
             | _ => false
             end
         end
+  | CResolveMany singles stdout exit =>
+      let '(o, c) := resolve_many singles in String.eqb o stdout && Z.eqb c exit
+  | CMonitor args v stdout => String.eqb (unlines (render_monitor args v)) stdout
   | CSchemaFail exit => Z.eqb exit 1
   | CValidate arg load_ok docs stdout stderr exit =>
       String.eqb (unlines (fst (run_validate load_ok (validate_banner arg) docs))) stdout &&
@@ -232,6 +239,39 @@ Definition oracle_listing (s : lsub) (v : lib_view) (lib_bodies : list string)
       end
   end.
 
+(* cdi monitor: the documented aspects, and the output cut into listings at the lines which open one *)
+Definition monitor_lsubs (a : string) : option (list lsub) :=
+  if String.eqb a "vendors" then Some [LVendors]
+  else if String.eqb a "classes" then Some [LClasses]
+  else if String.eqb a "specs" then Some [LSpecs []]
+  else if String.eqb a "devices" then Some [LDevices]
+  else if String.eqb a "all" then Some [LVendors; LClasses; LSpecs []; LDevices]
+  else None.
+Definition is_listing_header (l : string) : bool :=
+  mem_s l ["CDI vendors found:"; "No CDI vendors found."; "CDI device classes found:"; "No CDI device classes found.";
+           "CDI Specs found:"; "No CDI Specs found."; "CDI devices found:"; "No CDI devices found."].
+(* right to left: (lines seen since the last header, listings) *)
+Fixpoint cut_listings (ls : list string) : list string * list (list string) :=
+  match ls with
+  | [] => ([], [])
+  | l :: r => let '(pend, segs) := cut_listings r in
+              if is_listing_header l then ([], (l :: pend) :: segs) else (l :: pend, segs)
+  end.
+Definition oracle_monitor (args : list string) (v : lib_view) (ls : list string) : bool :=
+  let wanted := flat_map (fun a => match monitor_lsubs a with Some l => l | None => [LValidate] end)
+                         (match args with [] => ["all"] | _ => args end) in
+  match cut_listings ls with
+  | ([], segs) => forall2b (fun s seg => oracle_listing s v [] seg []) wanted segs
+  | _ => false
+  end.
+
+(* the single answers up to the first failing one, and that one *)
+Fixpoint ok_prefix (l : list (string * Z)) : list string * option (string * Z) :=
+  match l with
+  | [] => ([], None)
+  | (o, c) :: r => if Z.eqb c 0 then let '(p, f) := ok_prefix r in (o :: p, f) else ([], Some (o, c))
+  end.
+
 Definition is_yes (m : mres) : bool := match m with MYes => true | _ => false end.
 Definition is_bad (m : mres) : bool := match m with MBad => true | _ => false end.
 Definition is_validate (s : lsub) : bool := match s with LValidate => true | _ => false end.
@@ -276,6 +316,14 @@ Definition oracle19 (c : case19) : bool :=
                  end
                else true
            end
+  | CResolveMany singles stdout exit =>
+      (* every file is answered as if it were alone (each single answer is judged by its own CResolve case): the output is the
+         chain of the single outputs up to and including the first failure, and the run fails iff one of those does *)
+      match ok_prefix singles with
+      | (p, None) => Z.eqb exit 0 && String.eqb stdout (String.concat "" p)
+      | (p, Some (o, _)) => negb (Z.eqb exit 0) && String.eqb stdout (String.concat "" p ++ o)
+      end
+  | CMonitor args v stdout => oracle_monitor args v (lines_of stdout)
   | CSchemaFail exit => negb (Z.eqb exit 0)
   | CValidate arg load_ok docs stdout stderr exit =>
       Bool.eqb (negb (Z.eqb exit 0)) (negb load_ok || existsb (fun d => negb (snd d)) docs) &&
